@@ -17,7 +17,10 @@ META = {
              '<= MAX_KIP_INPUT_LEN bytes and, at every prefix, <= MAX_KIP_NESTING_DEPTH open brackets outside strings and // '
              'comments in a lookahead (lexical) reading; inputs beyond either limit are refused; a refusal always has a deep/long '
              'witness; the scanner\'s string/comment flags and stack coincide with the lexical reading at every point (no '
-             'desynchronisation). (2) over the parser call graph regenerated from parser.rs + parser/{common,kql,kml,meta,json}.rs '
+             'desynchronisation) — the scanner runs with ITS comment terminators / quote / escape (extracted from '
+             'validate_parser_budget) and the lexical reading with the PARSER\'s (extracted from skip_ws_and_comments, trivia1, '
+             'string, character in json.rs / common.rs), joined by C15_trivia_sites_agree, which is decided on the generated facts, '
+             'so an edit that moves the end of a comment at one site only breaks an obligation. (2) over the parser call graph regenerated from parser.rs + parser/{common,kql,kml,meta,json}.rs '
              '(one entry per call position, classified as behind a consumed opening bracket / depth+1 with the depth test / plain): '
              'every cycle passes a bracket-guarded or depth-counted call (decided by vm_compute on the finite graph: 119 functions, '
              '~470 call positions), and any chain of pending calls that respects the depth counters and holds one still-open bracket '
@@ -26,7 +29,8 @@ META = {
              'flipping the case of word letters outside strings and comments, preserve the tokens (up to word case). '
              'EXPLORED, NOT PROVED: that the real nom parser terminates without panic / stack overflow / hang on all strings, that '
              'its pending calls are chains of that graph, classification agreement of parse_kip with parse_kql/kml/meta, independence '
-             'of keyword case / inter-token whitespace / comments, whole-input consumption, re-validation and the serde JSON round '
+             'of keyword case / inter-token whitespace / comments (incl. comment-content independence: emptying every comment changes '
+             'nothing; comments hold CR, U+2028/2029, NEL, VT, FF followed by quotes, brackets and tokens), whole-input consumption, re-validation and the serde JSON round '
              'trip: checked on grammar-derived KQL/KML/META sentences up to and beyond the nesting limit, their token-level mutants, '
              'directed recursion probes, the budget stream and arbitrary Unicode, each parse in a child process on a 256 KiB thread '
              'under catch_unwind with a wall-clock bound; the budget model and the tokenizer are evaluated by vm_compute on the same '
@@ -55,7 +59,7 @@ CLAUSES = [
     ('inputs beyond the length / nesting limits are refused before parsing, by all five entry points, and nothing within them is', ('budget',)),
     ('parse_kip agrees with parse_kql / parse_kml / parse_meta; classification is by the text alone', ('classification', 'nondeterminism')),
     ('the result does not depend on keyword case', ('metamorphic-case',)),
-    ('the result does not depend on inter-token whitespace or comments', ('metamorphic-trivia', 'whitespace-kind')),
+    ('the result does not depend on inter-token whitespace or comments', ('metamorphic-trivia', 'whitespace-kind', 'comment-content')),
     ('the whole input is consumed (a trailing token is refused)', ('trailing-input',)),
     ('validate_command accepts every tree the parser returned', ('revalidation',)),
     ('serde JSON encode/decode of the tree is the identity (within serde_json\'s recursion limit: see known finding serde-depth-limit)', ('serde-roundtrip',)),
@@ -85,7 +89,7 @@ def run(ck):
                'operators that open no bracket); (D) the budget stream (26 structured boundary cases incl. bytes!=chars at the length limit, '
                'then random bracket/quote/slash/newline strings) through all five entry points and the Coq model; (E) arbitrary Unicode. '
                'non-trivial = a distinct accepted tree (hash of its JSON), or a distinct input refused by the budget')
-    ck.translate()
+    ck.translate(only=['gen_kipgraph'])
     my_hygiene(ck)
     ck.coq(['Kip/PropsC15.v'], ['gen'], model_targets=['Kip/RunC15.vo'])
     ck.trust('translator tools/gen_kipgraph.py: Rust tokeniser, per-module name resolution, binding scopes, classification of call '
@@ -129,8 +133,8 @@ def run(ck):
         args = ['--sentences', '280', '--mutants', '300', '--stress', '160', '--budget', '120', '--unicode', '60', '--uws', '30',
                 '--model-every', '6', '--lex-max', '450']
     else:
-        args = ['--sentences', '6000', '--mutants', '12000', '--stress', '4000', '--budget', '3000', '--unicode', '1500', '--uws', '400',
-                '--model-every', '10', '--lex-max', '6000']
+        args = ['--sentences', '3000', '--mutants', '4000', '--stress', '1500', '--probes', '1200', '--budget', '1000', '--unicode', '500',
+                '--uws', '200', '--model-every', '12', '--lex-max', '2000']
     rc, text = ck.run_harness(binary, ['run', '--out', out] + args, timeout=3000)
     rows = []
     if os.path.exists(out):
